@@ -189,7 +189,7 @@ CHECKS["C18"] = dict(
     level="exploration",
     technique="the built cmd/partial-aftersun binary run as a child process on real directories written by the real sequencer / witness on LocalBackend; before/after snapshots (path, content hash, mode, inode flags) judged by an independent path parser and edge computation; independent audit of the remaining files; restart and further sequencing",
     text="Log directories of sizes around 255-257, 511-513, 767-769 (+ seeded) are produced by the real sequencer on LocalBackend in rounds of varied size (stale partials at data/names/0/1), mirror directories by the real witness on LocalBackend with commits at several mid-tile sizes; hazards are planted (partial without its full tile, empty full tile, partial right of the edge, temp-file leftovers in and next to a partial directory, unrelated files, partial for a tile beyond the tree) a full tile left of the edge is emptied or replaced by a directory while a partial of it survives (a damaged directory: only the removals are judged), and in half of the cases the lock store is ahead of the published checkpoint: either the process died right after the lock commit (no tile of the next tree on disk), or the lock commit and every tile of the next tree were written and only the checkpoint upload did not happen (the next tree crossing a tile boundary, so that the full sibling of the published right-edge partial exists; three such cases at sizes 255, 510, 767 are in every run); mirror directories likewise get uploads whose tiles were written across the next tile boundary while the commit failed. After the tool ran: every removed path must be a partial tile file (or its emptied directory) whose full tile existed as a non-empty regular file and whose index is < floor(size / 256^(level+1)) for the published checkpoint size, computed by the harness from the path; nothing else differs in content, mode or inode flags; the tree at the published checkpoint (and at the lock checkpoint after recovery) is completely readable with reference bytes; LoadLog succeeds and a further round commits; the mirror tree is still completely served and a client can resume; a second run removes nothing forbidden. The tool's exit status is recorded, not judged. A further hazard removes a full tile left of the edge altogether while its partial and the same-named tiles of the sibling levels remain.",
-    note="Needs root with CAP_LINUX_IMMUTABLE to observe the inode-flag handling (present in this sandbox). The 65536 boundary (first level-1 full tile) is not generated for this check.",
+    note="Needs root with CAP_LINUX_IMMUTABLE to observe the inode-flag handling (present in this sandbox). Directories across the 65536 boundary (first level-1 full tile) are part of the workload (two in the quick tier).",
     design_ref="DESIGN.md section 3, C18",
     parts=[P("cleanup", "^TestC18Cleanup$", shards=(6, 16), bins=("partial-aftersun",)), P("mirror", "^TestC18Mirror$", shards=(2, 8), bins=("partial-aftersun",))],
     floor=10,
